@@ -66,4 +66,16 @@ theorem reward_needs_duration_bound : ¬ reward_eq_makespan_any_duration_stateme
   revert this
   decide
 
+/-- one job, fast machine 0 (duration 1), machine 1 of duration `d` never used -/
+def bigD (d : Nat) : Inst := ⟨1, 2, 1, fun _ m => if m = 0 then 1 else d, fun p => p, true⟩
+
+/-- **The exact threshold**: an unused entry beats the true makespan `v` as soon as its duration exceeds
+`−sentinel + v`.  With makespan 1: duration 1 000 000 is still harmless (one beyond what `WF.dur_lt`
+admits), duration 1 000 001 already yields reward −2. -/
+theorem reward_sentinel_threshold :
+    (exec env (bigD 1000000) (reset (bigD 1000000)) [0]).reward = some (-1) ∧
+    (exec env (bigD 1000001) (reset (bigD 1000001)) [0]).reward = some (-2) ∧
+    makespan (bigD 1000001) (ofMatrix (bigD 1000001) (exec env (bigD 1000001) (reset (bigD 1000001)) [0]).sched) = 1 := by
+  decide
+
 end Rl4co.Ffsp
